@@ -389,6 +389,7 @@ class Program:
         self._impl_cache = {}
         self._src = {}
         self.consts = {}      # tail name -> constant text (simple consts only)
+        self.const_fns = {}   # name (impl spans removed) -> Fn for consts/statics/promoteds with a MIR body
 
     # ---- source access (for impl headers)
     def src_lines(self, rel):
@@ -465,8 +466,17 @@ def load(path, src_root, crate):
         mc = re.match(r'^const (.*?): ([^=]*) = const (.*);$', lc)
         if mc:
             prog.consts[mc.group(1)] = mc.group(3).strip()
-        elif lc and lc.endswith('= {'):
+        elif (lc and lc.endswith('= {')) or (l.startswith('static ') and l.split(' // ')[0].rstrip().endswith('= {')):
+            if not lc:
+                lc = re.sub(r'<impl at .*?:\d+:\d+: \d+:\d+>::', '', l.split(' // ')[0].rstrip())
+                lc = 'const ' + re.sub(r'^static (mut )?', '', lc)
             nm = lc[6:].split(': ')[0]
+            jj = i + 1
+            while jj < n and lines[jj] != '}':
+                jj += 1
+            cf = _parse_fn('fn ' + nm + '() -> ' + lc[6:].split(': ', 1)[1][:-4].strip() + ' {', lines[i + 1:jj])
+            if cf is not None:
+                prog.const_fns[nm] = cf
             j = i + 1
             val = None
             cnt = 0
